@@ -108,18 +108,21 @@ def answerOf (name input : Bytes) (r : Except FErr (List Node)) : String :=
     | none => "OK " ++ (encFile name body).toStr
   | .error e => ferr input e
 
+/-- the float parser of the ops is the model's (and the same function as `Ops.Parser.parseFloatStub`) -/
+example : parseFloat64 = Parser.parseFloatStub := rfl
+
 def ops : List Op := [
   ("parsefile2", fun f => match f with
     | [name, src, toks] =>
       match Bytes.ofHex name, Bytes.ofHex src, Parser.decItems toks with
       | some nm, some input, some items =>
-        answerOf nm input (parseFile Parser.parseFloatStub (exprFuel items) items)
+        answerOf nm input (parseFile parseFloat64 (exprFuel items) items)
       | _, _, _ => "BADREQ"
     | _ => "BADREQ"),
   ("parsesrc", fun f => match f with
     | [name, src] =>
       match Bytes.ofHex name, Bytes.ofHex src with
-      | some nm, some input => answerOf nm input (parseSource Parser.parseFloatStub input)
+      | some nm, some input => answerOf nm input (soyFile input)
       | _, _ => "BADREQ"
     | _ => "BADREQ"),
   ("gounquote", fun f => match f with
@@ -134,7 +137,7 @@ def ops : List Op := [
     | ["file", _, toks] =>
       match Parser.decItems toks with
       | some items =>
-        let o := fileEntry Parser.parseFloatStub (exprFuel items) items
+        let o := fileEntry parseFloat64 (exprFuel items) items
         match o.result with
         | .error .panic => "PANIC"
         | .error .fuelOut => "HANG"
